@@ -105,6 +105,10 @@ func Generate(ctx context.Context, wd string, env []string, patterns []string, o
 		}
 		copyNonInjectorDecls(g, injectorFiles, pkg.TypesInfo)
 		goSrc := g.frame(opts.Tags)
+		if len(goSrc) == 0 {
+			// No Wire output for this package: do not emit a file that holds only the header.
+			continue
+		}
 		if len(opts.Header) > 0 {
 			goSrc = append(opts.Header, goSrc...)
 		}
